@@ -134,9 +134,234 @@ def confine(run, db, qual, zipped, center=None):
         run.check(center.replace(' ', '') in src, 'C18.confine', fi.qual, 'centre segment', 'the centre tile is masked by the centre mask in the centre window', 'centre segment composition changed', fi.loc())
 
 
+def ids_rules(run, db):
+    """Hexagonal aperture: ring i is numbered after ALL ids of ring i-1, whatever is excluded."""
+    from .common import loop_carried, reaching_at_end, ENTRY
+    fh = db.func(S + '_composite_hexagonal_aperture')
+    rings = [n for n in walk_no_nested(fh.node) if isinstance(n, ast.For) and 'rings' in ast.unparse(n.iter)]
+    if len(rings) != 1:
+        raise AnalysisError('hexagonal aperture: ring loop not found')
+    ring = rings[0]
+    carried = loop_carried(ring)
+    if 'segment_id' not in carried:
+        raise AnalysisError('hexagonal aperture: the id counter is not carried from ring to ring (carried: %s)' % sorted(carried))
+    # ids of the ring: arange(counter + 1, counter + 1 + len(centers)) over the UNFILTERED ring
+    idsdef = [st for st in ring.body if isinstance(st, ast.Assign) and ast.unparse(st.targets[0]) == 'ids']
+    if len(idsdef) != 1 or not (isinstance(idsdef[0].value, ast.Call) and ast.unparse(idsdef[0].value.func).endswith('arange') and len(idsdef[0].value.args) >= 2):
+        raise AnalysisError('hexagonal aperture: `ids = arange(lo, hi)` not found in the ring loop')
+    lo, hi = [ast.unparse(a).replace(' ', '') for a in idsdef[0].value.args[:2]]
+    # which list is counted, and is it still unfiltered at that point?
+    cnt = [n for n in ast.walk(idsdef[0].value.args[1]) if isinstance(n, ast.Call) and ast.unparse(n.func) == 'len']
+    okc = lo == 'segment_id+1' and len(cnt) == 1 and hi == 'segment_id+1+len(%s)' % ast.unparse(cnt[0].args[0])
+    counted = ast.unparse(cnt[0].args[0]) if cnt else '?'
+    pos = ring.body.index(idsdef[0])
+    defs_before = [st for st in ring.body[:pos] if isinstance(st, ast.Assign) and ast.unparse(st.targets[0]) == counted]
+    unfiltered = len(defs_before) == 1 and 'hexes' in ast.unparse(defs_before[0].value) and 'id_mask' not in ast.unparse(defs_before[0].value) and 'exclude' not in ast.unparse(defs_before[0].value)
+    run.check(okc and unfiltered, 'C18.ids', fh.qual, 'ring ids', 'the ids of a ring are counter+1 .. counter+len(ring), counted over the unfiltered ring (6 i segments)',
+              'ring ids are arange(%s, %s) with `%s` %s: the documented numbering (6 i ids per ring, exclusions leave gaps) is lost' % (lo, hi, counted, 'unfiltered' if unfiltered else 'already filtered by the exclusion mask'), fh.loc(idsdef[0]))
+    reach = reaching_at_end(ring.body, 'segment_id')
+    bad = []
+    for d in reach:
+        if d is ENTRY:
+            bad.append('the value it had when the ring started (the counter never advances on some path)')
+        elif isinstance(d, ast.For):
+            bad.append('the inner loop variable of `for %s in %s` (the last NON-EXCLUDED id of the ring; a ring whose last id is excluded, or a fully excluded ring, leaves the counter too low and the next ring re-uses ids)'
+                       % (ast.unparse(d.target), ast.unparse(d.iter)))
+        elif isinstance(d, ast.Assign) and ast.unparse(d.value).replace(' ', '') in ('ids[-1]', 'segment_id+len(%s)' % counted) and (ast.unparse(d.value).replace(' ', '') == 'ids[-1]' or unfiltered):
+            continue
+        else:
+            bad.append('`%s`' % norm_stmt(d))
+    run.check(not bad, 'C18.ids', fh.qual, 'ring-to-ring counter', 'at the end of every ring the counter is the last id of the unfiltered ring (`ids[-1]`), on every path',
+              'at the end of a ring the id counter can be %s' % '; or '.join(bad), fh.loc(ring))
+    # the per-segment id appended is the loop variable of the filtered (valid_ids, centers) pair
+    inner = [n for n in ring.body if isinstance(n, ast.For)]
+    ok = len(inner) == 1 and ast.unparse(inner[0].iter).replace(' ', '') == 'zip(valid_ids,centers)' and ast.unparse(inner[0].target).replace(' ', '') in ('segment_id,center', '(segment_id,center)')
+    filt = {ast.unparse(st.targets[0]): ast.unparse(st.value).replace(' ', '') for st in ring.body if isinstance(st, ast.Assign)}
+    ok = ok and filt.get('valid_ids') == 'ids[id_mask]' and filt.get('centers') == 'centers[id_mask]' and 'np.isin(ids,exclude' in filt.get('id_mask', '')
+    run.check(ok, 'C18.ids', fh.qual, 'id/centre pairing', 'ids and centres are filtered by the same exclusion mask and walked together', 'ids and centres are no longer filtered by one mask and zipped', fh.loc(ring))
+    # keystone: one counter, advanced once per segment, unconditionally
+    fk = db.func(S + '_composite_keystone_aperture')
+    incs = [n for n in walk_no_nested(fk.node) if isinstance(n, ast.AugAssign) and ast.unparse(n.target) == 'segment_id']
+    ok = len(incs) == 1 and isinstance(incs[0].op, ast.Add) and ast.unparse(incs[0].value) == '1'
+    if ok:
+        loop = _innermost_loop_with(fk, 'segment_ids')
+        ok = loop is not None and incs[0] in loop.body
+    run.check(ok, 'C18.ids', fk.qual, 'keystone counter', 'the keystone id counter advances by one per segment, unconditionally, in the per-segment loop', 'keystone id counter no longer advances once per segment', fk.loc(incs[0]) if incs else fk.loc())
+
+
+# --------------------------------------------------------------------------
+def boundary_rules(run, db):
+    """Geometric primitives as formulas: the returned mask is exactly the analytic inequality."""
+    from ..core.interp import Interp, Const, Tup, Unknown
+    from ..core.norm import Rat, diff, _rat
+    from ..domains.normdom import install_pi, Sym
+    from ..domains.pred import PredDomain, Pred, cmp_pred, p_and, p_or, p_not
+    G = 'prysm.geometry.'
+
+    def mk():
+        dom = PredDomain(coords=('x', 'y', 'r'))
+        it = install_pi(Interp(db, dom))
+        dom.nonzero = {'pi'}
+
+        def call_prysm(fi, args, kwargs, node):
+            if fi.name == 'optimize_xy_separable':
+                return Tup([args[0], args[1]])
+            return None
+        dom.call_prysm = call_prysm
+        return it, dom
+
+    def le(dom, a, b):
+        return cmp_pred(dom, ast.LtE(), a, b)
+
+    def lt(dom, a, b):
+        return cmp_pred(dom, ast.Lt(), a, b)
+
+    def one_return(it, f, kw, what):
+        res = [p for p in it.run(f, kwargs=lambda: dict(kw)) if p.outcome == 'return']
+        if len(res) != 1:
+            raise AnalysisError('%s (%s): expected one returning path, got %d' % (f.qual, what, len(res)))
+        return res[0]
+
+    def verdict(f, construct, got, want, text):
+        if not isinstance(got, Pred):
+            raise AnalysisError('%s (%s): the result is not a predicate over the coordinates: %r' % (f.qual, construct, got))
+        run.check(got == want, 'C18.boundary', f.qual, construct, text, '%s (%s) returns the sample set %s, the analytic region is %s' % (f.name, construct, got.key(), want.key()), f.loc())
+
+    # circle / annulus / offset_circle
+    it, dom = mk()
+    R = dom.R
+    A = lambda n: Rat(R.atom(n))
+    f = db.func(G + 'circle')
+    p = one_return(it, f, {'radius': dom.sym('radius'), 'r': dom.sym('r')}, 'circle')
+    verdict(f, 'region', p.value, le(dom, A('r'), A('radius')), 'circle == {r <= radius} (boundary included)')
+    f = db.func(G + 'annulus')
+    p = one_return(it, f, {'rin': dom.sym('rin'), 'rout': dom.sym('rout'), 'r': dom.sym('r')}, 'annulus')
+    verdict(f, 'region', p.value, p_and(le(dom, A('rin'), A('r')), le(dom, A('r'), A('rout'))), 'annulus == {rin <= r <= rout}')
+    f = db.func(G + 'offset_circle')
+    p = one_return(it, f, {'radius': dom.sym('radius'), 'x': dom.sym('x'), 'y': dom.sym('y'), 'center': Tup([dom.sym('cx'), dom.sym('cy')])}, 'offset_circle')
+    rr = _rat(R.sqrt((A('x') - A('cx')) * (A('x') - A('cx')) + (A('y') - A('cy')) * (A('y') - A('cy'))))
+    verdict(f, 'region', p.value, le(dom, rr, A('radius')), 'offset_circle == {|(x, y) - centre| <= radius}')
+
+    # rectangle: angle 0, 90 and general
+    f = db.func(G + 'rectangle')
+    for label, ang, hgt in (('angle=0', Const(0), 'height'), ('angle=0, height=None', Const(0), None), ('angle=90', Const(90), 'height'), ('general angle', 'sym', 'height')):
+        it, dom = mk()
+        R = dom.R
+        A = lambda n: Rat(R.atom(n))
+        dom.nonzero = {'pi', 'angle'}
+        kw = {'width': dom.sym('width'), 'x': dom.sym('x'), 'y': dom.sym('y'), 'height': dom.sym('height') if hgt else Const(None), 'angle': dom.sym('angle') if ang == 'sym' else ang}
+        res = [q for q in it.run(f, kwargs=lambda: dict(kw)) if q.outcome == 'return']
+        if ang == 'sym':
+            res = [q for q in res if not any(c.replace(' ', '') == 'angle==90' and t for c, t in q.conds)]
+        if len(res) != 1:
+            raise AnalysisError('rectangle (%s): expected one path, got %d' % (label, len(res)))
+        w, h = A('width'), (A('height') if hgt else A('width'))
+        X, Y = A('x'), A('y')
+        if label == 'angle=90':
+            X, Y = Y, X
+        elif ang == 'sym':
+            rho = _rat(R.sqrt(X * X + Y * Y))
+            phi = Rat(R.func('arctan2', [A('y'), A('x')])) + A('angle') * A('pi') / 180
+            X, Y = rho * _rat(R.trig('cos', phi)), rho * _rat(R.trig('sin', phi))
+        want = p_and(le(dom, Y, h), le(dom, -h, Y), le(dom, X, w), le(dom, -w, X))
+        verdict(f, label, res[0].value, want, 'rectangle (%s) == {|x\'| <= width, |y\'| <= height} with (x\', y\') the coordinates turned by +angle (polar angle + radians(angle))' % label)
+
+    # rotated ellipse: zero where the quadratic form of a rotated frame exceeds 1
+    it, dom = mk()
+    R = dom.R
+    A = lambda n: Rat(R.atom(n))
+    f = db.func(G + 'rotated_ellipse')
+    kw = {'width_major': dom.sym('a'), 'width_minor': dom.sym('b'), 'x': dom.sym('x'), 'y': dom.sym('y'), 'major_axis_angle': dom.sym('angle')}
+    res = [q for q in it.run(f, kwargs=lambda: dict(kw)) if q.outcome == 'return']
+    if len(res) != 1:
+        raise AnalysisError('rotated_ellipse: expected one returning path, got %d' % len(res))
+    stores = [e for e in res[0].events if e['kind'] == 'maskstore']
+    ok_shape = len(stores) == 1 and isinstance(res[0].value, Const) and res[0].value.v == 1 and isinstance(stores[0]['value'], Const) and stores[0]['value'].v == 0 \
+        and stores[0]['pred'].kind == 'cmp' and stores[0]['pred'].args[0] in ('<0', '<=0')
+    if not ok_shape:
+        raise AnalysisError('rotated_ellipse: not of the form ones; arr[Q > 1] = 0: %r' % (stores,))
+    run.check(stores[0]['pred'].args[0] == '<0', 'C18.boundary', f.qual, 'boundary', 'samples exactly on the ellipse (Q == 1) are kept: only {Q > 1} is zeroed',
+              'rotated_ellipse zeroes {Q >= 1}: samples exactly on the analytic boundary are excluded', f.loc(stores[0]['node']))
+    Q = Rat(R.const(1)) - stores[0]['pred'].args[1]            # pred is 1 - Q < 0
+    Qxx, Qyy, Qxy = diff(diff(Q, 'x', R), 'x', R) / 2, diff(diff(Q, 'y', R), 'y', R) / 2, diff(diff(Q, 'x', R), 'y', R)
+    X, Y = A('x'), A('y')
+    pure = (Q - (Qxx * X * X + Qxy * X * Y + Qyy * Y * Y)).is_zero()
+    ang = -A('angle') * A('pi') / 180
+    c, s_ = _rat(R.trig('cos', ang)), _rat(R.trig('sin', ang))
+    a2, b2 = A('a') * A('a'), A('b') * A('b')
+    okq = pure and Qxx == c * c / a2 + s_ * s_ / b2 and Qyy == s_ * s_ / a2 + c * c / b2 and (Qxy * Qxy == (2 * c * s_ * (1 / a2 - 1 / b2)) * (2 * c * s_ * (1 / a2 - 1 / b2)))
+    run.check(okq, 'C18.boundary', f.qual, 'quadratic form', 'the ellipse is {u^2/a^2 + v^2/b^2 <= 1} with (u, v) an exact rotation of (x, y) by the major-axis angle: Q = R^T diag(1/a^2, 1/b^2) R',
+              'rotated_ellipse zeroes {Q > 1} with Q = %s: its quadratic form is not R^T diag(1/a^2, 1/b^2) R for the rotation by the major-axis angle (xx: %s, yy: %s, xy: %s) -- '
+              '(u, v) is not an orthonormal rotation of (x, y), so the region is a skewed/enlarged ellipse except at multiples of 90 degrees' % (Q.key(), Qxx.key(), Qyy.key(), Qxy.key()), f.loc())
+    guard = [q for q in it.run(f, kwargs=lambda: dict(kw)) if q.outcome == 'raise']
+    run.check(len(guard) == 1 and any('width_minor > width_major' in c0 and t for c0, t in guard[0].conds), 'C18.boundary', f.qual, 'axis guard', 'minor > major is rejected', 'the major/minor guard changed', f.loc())
+
+    # spider: complement of the union of half-strips turned by 360/vanes
+    f = db.func(G + 'spider')
+    for vanes in (1, 2, 3, 4):
+        for rot in ('rotation=0', 'rotation (degrees)'):
+            it, dom = mk()
+            R = dom.R
+            A = lambda n: Rat(R.atom(n))
+            dom.nonzero = {'pi', 'rotation'}
+            kw = {'vanes': Const(vanes), 'width': dom.sym('width'), 'x': dom.sym('x'), 'y': dom.sym('y'), 'rotation': Const(0) if rot == 'rotation=0' else dom.sym('rotation'),
+                  'center': Tup([dom.sym('cx'), dom.sym('cy')]), 'rotation_is_rad': Const(False)}
+            res = [q for q in it.run(f, kwargs=lambda: dict(kw)) if q.outcome == 'return']
+            vals = {q.value.key() if isinstance(q.value, Pred) else repr(q.value) for q in res}
+            if len(vals) != 1:
+                raise AnalysisError('spider (vanes=%d, %s): paths disagree or no path: %s' % (vanes, rot, sorted(vals)[:2]))
+            X, Y = A('x') - A('cx'), A('y') - A('cy')
+            rho = _rat(R.sqrt(X * X + Y * Y))
+            phi = Rat(R.func('arctan2', [Y, X]))
+            if rot != 'rotation=0':
+                phi = phi - A('rotation') * A('pi') / 180
+            arms = []
+            for k in range(vanes):
+                pk = phi + Rat(R.const(360 * k)) / vanes * A('pi') / 180
+                xk, yk = rho * _rat(R.trig('cos', pk)), rho * _rat(R.trig('sin', pk))
+                ay = Rat(R.func('abs', [yk]))
+                arms.append(p_and(lt(dom, Rat(R.const(0)), xk), lt(dom, ay, A('width') / 2)))
+            want = p_not(p_or(*arms)) if len(arms) > 1 else p_not(arms[0])
+            verdict(f, 'vanes=%d, %s' % (vanes, rot), res[0].value, want,
+                    'spider == complement of the union over k of {x_k > 0, |y_k| < width/2}, (x_k, y_k) the centred coordinates turned by -rotation + 360 k/vanes degrees')
+
+    # regular polygon: vertices on the circle, equally spaced; point-in-polygon wiring
+    it, dom = mk()
+    R = dom.R
+    A = lambda n: Rat(R.atom(n))
+    orig = dom.call_ext
+
+    def call_ext(dotted, args, kwargs, node):
+        if dotted == 'numpy.arange':
+            return dom.sym('k')
+        if dotted == 'numpy.stack' and args and isinstance(args[0], Tup):
+            return Tup(list(args[0].items) + [kwargs.get('axis', Const(0))])
+        return orig(dotted, args, kwargs, node)
+    dom.call_ext = call_ext
+    f = db.func(G + '_generate_vertices')
+    p = one_return(it, f, {'sides': dom.sym('sides'), 'radius': dom.sym('radius'), 'center': Tup([dom.sym('cx'), dom.sym('cy')]), 'rotation': dom.sym('rotation')}, 'vertices')
+    v = p.value
+    if not (isinstance(v, Tup) and len(v.items) == 3):
+        raise AnalysisError('_generate_vertices: not stack((x, y), axis=1)')
+    th = A('k') * 2 * A('pi') / A('sides') + A('rotation') * A('pi') / 180
+    wx, wy = A('radius') * _rat(R.trig('sin', th)) + A('cx'), A('radius') * _rat(R.trig('cos', th)) + A('cy')
+    gx, gy = dom.rat(v.items[0]), dom.rat(v.items[1])
+    run.check(gx is not None and gy is not None and gx == wx and gy == wy and isinstance(v.items[2], Const) and v.items[2].v == 1, 'C18.boundary', f.qual, 'vertices',
+              'vertex k = centre + radius (sin, cos)(2 pi k/sides + rotation): on the circumscribed circle, equally spaced, stacked as (x, y) columns',
+              'polygon vertices are (%s, %s), expected centre + radius (sin, cos)(2 pi k/sides + rotation)' % (gx.key() if gx is not None else '?', gy.key() if gy is not None else '?'), f.loc())
+    f = db.func(G + '_generate_mask')
+    src = ast.unparse(f.node).replace(' ', '')
+    ok = 'truenp.stack((xx,yy),axis=2)' in src and 'spatial.Delaunay(vertices' in src and 'mask=~(triangles.find_simplex(xxyy)<0)' in src
+    run.check(ok, 'C18.boundary', f.qual, 'point in polygon', 'samples are (x, y) pairs in the vertex order; inside == a simplex of the triangulated hull was found', 'point-in-polygon wiring changed', f.loc())
+    f = db.func(G + 'regular_polygon')
+    src = ast.unparse(f.node).replace(' ', '')
+    run.check('verts=_generate_vertices(sides,radius,center,rotation)' in src and 'return_generate_mask(verts,x,y)' in src, 'C18.boundary', f.qual, 'wiring', 'regular_polygon passes (sides, radius, center, rotation) and (x, y) through', 'regular_polygon wiring changed', f.loc())
+
+
 def check(run, db, tier):
     run.trust('statement-order dataflow over the per-segment loop bodies (appends, the OR into the aperture, name rebinding)')
-    run.assume('NARROW claim: disjointness, areas, analytic boundaries, monotonic growth and symmetry of the masks are geometry of values and are not decided; only the bookkeeping that ties windows, masks, ids and the aperture together is')
+    run.assume('NARROW claim for the composite apertures: disjointness and areas of rasterised segments are geometry of values and are not decided; the bookkeeping that ties windows, masks, ids and the aperture together is',
+               'primitives are decided as formulas (C18.boundary): monotonic growth and symmetry follow from the analytic inequality; the Delaunay point-in-polygon test itself (qhull) and truecircle are not decided')
     run.rule('C18.lockstep', 'per-segment lists are appended exactly once, unconditionally, with no early exit in between')
     run.rule('C18.union', 'the aperture mask is written only by OR-ing the (window, mask) pair that is also recorded (plus initialisation / spider removal)')
     run.rule('C18.confine', "composed OPD passes through the segment's own mask before accumulation into its own window")
@@ -177,6 +402,12 @@ def check(run, db, tier):
     run.check(ok, 'C18.lockstep', fkc.qual, 'dict wiring', 'windows/masks travel under matching keys from the builder to the object', 'keystone builder/constructor key wiring changed', fkc.loc())
     run.group(confine, run, db, S + 'CompositeHexagonalAperture.compose_opd', ['self.windows', 'self.local_masks'])
     run.group(confine, run, db, S + 'CompositeKeystoneAperture.compose_opd', ['self.segment_windows', 'self.segment_masks'], center='out[self.center_window]+=tile*self.center_mask')
+    run.rule('C18.ids', 'segment ids: ring i is numbered after all 6(i-1)-ring ids whatever is excluded; ids and centres filtered together')
+    run.group(ids_rules, run, db)
+    run.require_instances('C18.ids', 4)
+    run.rule('C18.boundary', 'geometric primitives (circle, annulus, offset circle, rectangle, rotated ellipse, spider, regular polygon vertices) equal their analytic inequalities as formulas')
+    run.group(boundary_rules, run, db)
+    run.require_instances('C18.boundary', 21)
     run.require_instances('C18.lockstep', 15)
     run.require_instances('C18.union', 6)
     run.require_instances('C18.confine', 6)
